@@ -60,6 +60,9 @@ ASSUMPTIONS = [
     "format() == draw(explicit parameters) is compared only when draw() accepts the padding "
     "(draw additionally documents pad_width <= terminal width); explicit parameters are the "
     "values the real _check_format_spec returned, which TLC validated in the same trace",
+    "format()/draw() are not run when the padding the real _check_format_spec returned exceeds "
+    "3 000 000 cells (resource guard; counted in the evidence); the other three entry points "
+    "still are",
     "near-sentence edits draw from printable ASCII except '\"' and '\\\\'; control characters "
     "and non-ASCII digits are outside the enumerated alphabet",
 ]
@@ -67,6 +70,7 @@ ASSUMPTIONS = [
 STYLES = ["block", "kitty", "iterm2"]
 IDENT = {"block": "other", "kitty": "kitty", "iterm2": "wezterm"}
 ENTRIES = ["", "_check_format_spec", "format", "ImageIterator", "UrwidImage"]
+MAX_CELLS = 3_000_000  # format()/draw() are not run for a larger padding rectangle
 TERM_A = (80, 30)
 TERM_B = (57, 19)
 CORE = "<|>^-_.#+015af"
@@ -283,6 +287,7 @@ class Real:
             c for c in (*self.cls.__mro__, UrwidImage) if c.__module__.startswith("term_image")
         ]
         self._snaps = {}
+        self.skipped = 0
 
     # -- snapshots -----------------------------------------------------------------
     @staticmethod
@@ -373,6 +378,11 @@ class Real:
 
     def fmt(self, s: str, raw, with_draw: bool):
         img = self.img
+        if raw is not None and raw[1] * raw[3] > MAX_CELLS:
+            # resource guard: a padding of millions of cells (a one-character edit can turn a
+            # threshold or a colour into a height) would build a gigabyte string
+            self.skipped += 1
+            return ["unobserved", True]
         try:
             out = format(img, s)
         except Exception as e:
@@ -527,7 +537,7 @@ CANARY = [
 ]
 
 
-def canary(reals) -> None:
+def canary(reals) -> int:
     """Corrupted traces must be rejected with the right clause, else the binding is deaf."""
     traces, expect = [], []
     for si, s, ei, what, verdict in CANARY:
@@ -576,6 +586,7 @@ def canary(reals) -> None:
         traces.append(t)
         expect.append(verdict)
     verdicts, _, _ = validate(traces, len(traces), 1)
+    n = 0
     for i in range(0, len(traces), 2):
         if verdicts[i]["verdict"] != "ok" or expect[i + 1] == "ok":
             continue  # the real code already deviates here: the main check reports it
@@ -584,6 +595,8 @@ def canary(reals) -> None:
             raise tlc.MachineryError(
                 f"corrupted trace not rejected as expected: {CANARY[i // 2]} gave {got!r}"
             )
+        n += 1
+    return n
 
 
 JVM = ["-Xmx3g", "-XX:ParallelGCThreads=2", "-XX:CICompilerCount=2"]
@@ -721,6 +734,7 @@ def main(rep: Report, replay: dict | None) -> None:
     rep.evaluations = stats["real_calls"]
     rep.extra["accepted_by_spec"] = dict(zip(STYLES, stats["accepted_by_spec"]))
     rep.extra["draw_compared"] = stats["draw_compared"]
+    rep.extra["format_not_run_padding_too_large"] = sum(r.skipped for r in reals.values())
     rep.extra["strings_by_kind"] = stats["kinds"]
     rep.exhaustive = not replay
     if not replay:
@@ -730,6 +744,5 @@ def main(rep: Report, replay: dict | None) -> None:
         if stats["draw_compared"] == 0:
             raise tlc.MachineryError("vacuous: format() was never compared with draw()")
     if not replay:
-        canary(reals)
-        rep.extra["corrupted_traces_rejected"] = len(CANARY)
+        rep.extra["corrupted_traces_rejected"] = canary(reals)
     join_models()
